@@ -419,6 +419,13 @@ impl HttpServer {
                     continue;
                 }
 
+                // A closed connection is only kept until the responses for the requests
+                // already yielded from it have been absorbed. There is nothing left to
+                // read from it or write to it.
+                if client_connection.state == ClientConnectionState::Closed {
+                    continue;
+                }
+
                 if e.event_set().contains(epoll::EventSet::IN) {
                     // We have bytes to read from this connection.
                     // If our `read` yields `Request` objects, we wrap them with an ID before
